@@ -130,7 +130,7 @@ func TestVerif_C13_RPC(t *testing.T) {
 		for deadline := time.Now().Add(10 * time.Second); time.Now().Before(deadline); time.Sleep(20 * time.Millisecond) {
 			if l := cg.MetadataStore().OpLog().Len(); l != last {
 				last, since = l, time.Now()
-			} else if time.Since(since) > 300*time.Millisecond {
+			} else if time.Since(since) > 800*time.Millisecond {
 				break
 			}
 		}
@@ -167,6 +167,8 @@ func TestVerif_C13_RPC(t *testing.T) {
 		msgRPC := c13RPCLister(msgOrder, func(s, u []byte, untilNow, rev bool, st *c13Stream[protocoltypes.GroupMessageEvent]) error {
 			return svc.GroupMessageList(&protocoltypes.GroupMessageList_Request{GroupPk: gpk, SinceId: s, UntilId: u, UntilNow: untilNow, ReverseOrder: rev}, st)
 		}, func(e *protocoltypes.GroupMessageEvent) []byte { return e.GetEventContext().GetId() })
+		logLens := func() int { return cg.MetadataStore().OpLog().Len() + cg.MessageStore().OpLog().Len() }
+		len0 := logLens()
 		for _, c := range []struct {
 			what string
 			l    c13Lister
@@ -175,6 +177,10 @@ func TestVerif_C13_RPC(t *testing.T) {
 			id, msg := c13CheckCube(c.l, c.ord, c.what, count)
 			if id == "harness" {
 				rt.Fatalf("harness: %s", msg)
+			}
+			if id != "" && logLens() != len0 {
+				// the service appended an entry of its own while the cube ran: the reference order is out of date
+				rt.Fatalf("harness: the log grew during the listing cube (%d -> %d entries): %s", len0, logLens(), msg)
 			}
 			if id != "" {
 				acct.Violation(id+"/"+c.what, "TestVerif_C13_RPC", map[string]any{"entries_written": n, "msg": msg})
